@@ -160,6 +160,12 @@ def run(chk):
         k += 1
     outs = core.run_node(nreqs)
     nbad = 0
+    # a mismatch is classified by the documented deviation (if any) whose reference it agrees with
+    VARIANTS = [("array-spread-of-non-array", True, False),
+                ("hoisted-operand-evaluated-eagerly", False, True),
+                ("array-spread-of-non-array+hoisted-operand-evaluated-eagerly", True, True)]
+    wrap = lambda body: ("(function(s0,TOSTR,SPREADOBJ){return " + body +
+                         "})(D[\"$$s0\"],function(a){return a==null?'':String(a)},function(a){return a==null?{}:a})")
     lenient_reqs, lenient_meta = [], []
     for k, (i, ei) in enumerate(meta):
         g, r = outs[2 * k], outs[2 * k + 1]
@@ -170,18 +176,20 @@ def run(chk):
             t, s, m = cases[i]
             D, s0 = E[ei]
             D2 = dict(D); D2["$$s0"] = s0
-            lenient_reqs.append({"op": "evalref", "data": D2,
-                                 "expr": "(function(s0,TOSTR,SPREADOBJ){return " + eg.js_ref(t, None, True) +
-                                         "})(D[\"$$s0\"],function(a){return a==null?'':String(a)},function(a){return a==null?{}:a})"})
+            for (_, cs, ho) in VARIANTS:
+                body = eg.js_ref_hoisted(t, None, cs) if ho else eg.js_ref(t, None, cs)
+                lenient_reqs.append({"op": "evalref", "data": D2, "expr": wrap(body)})
             lenient_meta.append((k, i, ei, g, r))
     louts = core.run_node(lenient_reqs) if lenient_reqs else []
-    for (k, i, ei, g, r), lo in zip(lenient_meta, louts):
+    for j, (k, i, ei, g, r) in enumerate(lenient_meta):
         t, s, m = cases[i]
         cls = "value"
-        if "value" in g and "value" in lo and canon(g["value"]) == canon(lo["value"]):
-            cls = "array-spread-of-non-array"
-        elif ("throws" in g or "error" in g) and ("throws" in lo or "error" in lo):
-            cls = "array-spread-of-non-array"
+        for vi, (name, _, _) in enumerate(VARIANTS):
+            lo = louts[len(VARIANTS) * j + vi]
+            if ("value" in g and "value" in lo and canon(g["value"]) == canon(lo["value"])) or \
+               (("throws" in g or "error" in g) and ("throws" in lo or "error" in lo)):
+                cls = name
+                break
         nbad += 1
         chk.violation("input", f"{{{{ {s} }}}} evaluates to {json.dumps(g)[:120]} in generated code, JavaScript gives {json.dumps(r)[:120]}",
                       src=s, classification=cls, env=ei, data=E[ei][0], s0=E[ei][1], generated=g, reference=r,
